@@ -43,6 +43,117 @@ def has_letters(v) -> bool:
     return False
 
 
+def decode_pipeline_rule(ctx, r3, r4):
+    """String provenance from match groups to the IR / to comparisons, over every handler of the parser."""
+    src, inv = ctx.src, ctx.consts
+    pmod = src.mod('css_parser')
+    ir_classes = {'css_types.SelectorTag': (0, 1), 'css_types.SelectorAttribute': (0, 1),
+                  'css_types.SelectorContains': (0,), 'css_types.SelectorLang': (0,)}
+    targets = [(q, fn) for q, fn in pmod.functions.items()
+               if (q.startswith('CSSParser.') or q.startswith('SpecialPseudoPattern.') or q in ('process_custom',))]
+    for q, fn in targets:
+        cls = q.split('.')[0] if '.' in q else None
+        flow = StrFlow(src, pmod, fn, cls, caller_bindings(src, pmod, fn, cls))
+        fq = f'css_parser.{q}'
+
+        def sink(expr, what, where_node, need_lower=False):
+            ps = flow.prov(expr)
+            if not ps:
+                return
+            for p in sorted(ps, key=lambda p: (p.source, p.decodes)):
+                desc = {'function': fq, 'sink': what, 'expr': unparse(expr)[:60], 'source': p.source,
+                        'decodes': p.decodes, 'lowered': p.lowered}
+                r3.instance(desc, key=f'{fq}|{what}|{unparse(expr)}|{p.source}|{p.decodes}')
+                r3.obligation(p.decodes == 1)
+                if p.decodes != 1:
+                    r3.violation(f'{fq} {what} {unparse(expr)[:50]} decodes={p.decodes}', pmod.where(where_node),
+                                 f'{fq}: {what} receives text from {p.source} with css_unescape applied {p.decodes} '
+                                 f'time(s) (pipeline {list(p.steps)}); escapes must be decoded exactly once, after '
+                                 f'tokenisation')
+                # transformations between the match group and the IR: quotes are dropped by position ([1:-1]), a namespace bar
+                # by [:-1], '.'/'#' by [1:], all BEFORE the decode; nothing that depends on the content (strip, replace)
+                steps = list(p.steps)
+                after_decode = steps[steps.index('css_unescape') + 1:] if 'css_unescape' in steps else []
+                odd = [st_ for st_ in steps if st_.startswith(('.strip(', '.lstrip(', '.rstrip(', '.replace('))]
+                late = [st_ for st_ in after_decode if st_.startswith('[')]
+                unknown = [st_ for st_ in steps if st_.startswith('[') and st_ not in ('[1:-1]', '[:-1]', '[1:]')]
+                r3.obligation(not (odd or late or unknown))
+                if odd:
+                    r3.violation(f'{fq} {what} {unparse(expr)[:40]} step {odd[0]}', pmod.where(where_node),
+                                 f'{fq}: {what} receives text from {p.source} through {steps}: `{odd[0]}` removes characters by '
+                                 f'content, not by position - a value that ends (or starts) with an escaped delimiter or with the '
+                                 f'stripped characters loses them (the delimiters are exactly the first and last character: [1:-1])')
+                if late:
+                    r3.violation(f'{fq} {what} {unparse(expr)[:40]} slice after decode', pmod.where(where_node),
+                                 f'{fq}: {what} receives text from {p.source} through {steps}: the slice {late[0]} is applied after '
+                                 f'css_unescape, i.e. to decoded text - an escaped quote/bar at the edge of the value is cut off as if '
+                                 f'it were a delimiter')
+                if unknown and not late:
+                    raise AnalysisError(f'{fq}: {what}: slice {unknown[0]} in the pipeline {steps} is outside the vocabulary of this rule')
+                if need_lower:
+                    r4.instance({**desc, 'kind': 'key'}, key=f'{fq}|key|{unparse(expr)}|{p.source}|{p.lowered}')
+                    r4.obligation(p.lowered)
+                    if not p.lowered:
+                        r4.violation(f'{fq} key {unparse(expr)[:50]}', pmod.where(where_node),
+                                     f'{fq}: {what} uses text from {p.source} that is not lower-cased after its last '
+                                     f'decode (pipeline {list(p.steps)}): an escaped capital or an upper-case '
+                                     f'spelling yields a different key')
+        nested = set()
+        for n in ast.walk(fn):
+            if n is not fn and isinstance(n, (ast.FunctionDef, ast.Lambda)):
+                nested.update(id(y) for y in ast.walk(n))
+        for n in ast.walk(fn):
+            if id(n) in nested:
+                continue
+            if isinstance(n, ast.Call):
+                cref = src.resolve_class_ref(pmod, n.func)
+                if cref in ir_classes:
+                    for i in ir_classes[cref]:
+                        if i < len(n.args):
+                            sink(n.args[i], f'{cref.split(".")[1]} argument {i}', n)
+                cn = call_name(n)
+                if cn.endswith('.ids.append') or cn.endswith('.classes.append'):
+                    sink(n.args[0], cn.split('.')[-2] + ' list', n)
+                if cn == 're.escape' and n.args:
+                    sink(n.args[0], 'attribute value pattern', n)
+                if isinstance(n.func, ast.Attribute) and n.func.attr == 'get' and n.args \
+                        and unparse(n.func.value) in ('self.custom', 'self.patterns'):
+                    sink(n.args[0], f'lookup in {unparse(n.func.value)}', n, need_lower=True)
+            if isinstance(n, ast.Assign):
+                for t in n.targets:
+                    if isinstance(t, ast.Subscript) and isinstance(t.value, ast.Name) and t.value.id in (
+                            'custom_selectors',):
+                        sink(t.slice, f'key of {t.value.id}', n, need_lower=True)
+                    if isinstance(t, ast.Subscript) and unparse(t.value) == 'self.custom':
+                        sink(t.slice, 'key of self.custom', n, need_lower=True)
+            # comparisons with letter-bearing constants
+            dyn_const = []
+            if isinstance(n, ast.Compare) and len(n.ops) == 1 and isinstance(
+                    n.ops[0], (ast.Eq, ast.NotEq, ast.In, ast.NotIn)):
+                a, b = n.left, n.comparators[0]
+                for dyn, const in ((a, b), (b, a)):
+                    cv = inv.folder.try_ev('css_parser', const, default=None)
+                    if cv is not None and has_letters(cv):
+                        dyn_const.append((dyn, cv, n))
+            if isinstance(n, ast.Call) and isinstance(n.func, ast.Attribute) and n.func.attr in (
+                    'startswith', 'endswith') and n.args:
+                cv = inv.folder.try_ev('css_parser', n.args[0], default=None)
+                if cv is not None and has_letters(cv):
+                    dyn_const.append((n.func.value, cv, n))
+            for dyn, cv, node in dyn_const:
+                for p in sorted(flow.prov(dyn), key=lambda p: p.source):
+                    shown = cv if isinstance(cv, str) else f'{len(cv)} names'
+                    r4.instance({'function': fq, 'comparison': unparse(node)[:70], 'source': p.source,
+                                 'lowered': p.lowered, 'constant': shown},
+                                key=f'{fq}|{unparse(node)}|{p.source}|{p.lowered}')
+                    r4.obligation(p.lowered)
+                    if not p.lowered:
+                        r4.violation(f'{fq} compare {unparse(node)[:60]}', pmod.where(node),
+                                     f'{fq}: `{unparse(node)[:70]}` compares text from {p.source} with a lettered '
+                                     f'constant without lower-casing it after the last decode (pipeline '
+                                     f'{list(p.steps)}): upper-case or escaped spellings behave differently')
+
+
 def run(ctx, report: Report) -> None:
     src, inv = ctx.src, ctx.consts
     report.explanation = (
@@ -115,91 +226,7 @@ def run(ctx, report: Report) -> None:
     # ---- R3 / R4 ---------------------------------------------------------------------------------------
     r3 = report.rule('C09-R3', 'escapes are decoded exactly once between a match group and the IR', floor=8)
     r4 = report.rule('C09-R4', 'case folding follows the last decode before comparison with lettered constants', floor=12)
-    ir_classes = {'css_types.SelectorTag': (0, 1), 'css_types.SelectorAttribute': (0, 1),
-                  'css_types.SelectorContains': (0,), 'css_types.SelectorLang': (0,)}
-    targets = [(q, fn) for q, fn in pmod.functions.items()
-               if (q.startswith('CSSParser.') or q.startswith('SpecialPseudoPattern.') or q in ('process_custom',))]
-    for q, fn in targets:
-        cls = q.split('.')[0] if '.' in q else None
-        flow = StrFlow(src, pmod, fn, cls, caller_bindings(src, pmod, fn, cls))
-        fq = f'css_parser.{q}'
-
-        def sink(expr, what, where_node, need_lower=False):
-            ps = flow.prov(expr)
-            if not ps:
-                return
-            for p in sorted(ps, key=lambda p: (p.source, p.decodes)):
-                desc = {'function': fq, 'sink': what, 'expr': unparse(expr)[:60], 'source': p.source,
-                        'decodes': p.decodes, 'lowered': p.lowered}
-                r3.instance(desc, key=f'{fq}|{what}|{unparse(expr)}|{p.source}|{p.decodes}')
-                r3.obligation(p.decodes == 1)
-                if p.decodes != 1:
-                    r3.violation(f'{fq} {what} {unparse(expr)[:50]} decodes={p.decodes}', pmod.where(where_node),
-                                 f'{fq}: {what} receives text from {p.source} with css_unescape applied {p.decodes} '
-                                 f'time(s) (pipeline {list(p.steps)}); escapes must be decoded exactly once, after '
-                                 f'tokenisation')
-                if need_lower:
-                    r4.instance({**desc, 'kind': 'key'}, key=f'{fq}|key|{unparse(expr)}|{p.source}|{p.lowered}')
-                    r4.obligation(p.lowered)
-                    if not p.lowered:
-                        r4.violation(f'{fq} key {unparse(expr)[:50]}', pmod.where(where_node),
-                                     f'{fq}: {what} uses text from {p.source} that is not lower-cased after its last '
-                                     f'decode (pipeline {list(p.steps)}): an escaped capital or an upper-case '
-                                     f'spelling yields a different key')
-        nested = set()
-        for n in ast.walk(fn):
-            if n is not fn and isinstance(n, (ast.FunctionDef, ast.Lambda)):
-                nested.update(id(y) for y in ast.walk(n))
-        for n in ast.walk(fn):
-            if id(n) in nested:
-                continue
-            if isinstance(n, ast.Call):
-                cref = src.resolve_class_ref(pmod, n.func)
-                if cref in ir_classes:
-                    for i in ir_classes[cref]:
-                        if i < len(n.args):
-                            sink(n.args[i], f'{cref.split(".")[1]} argument {i}', n)
-                cn = call_name(n)
-                if cn.endswith('.ids.append') or cn.endswith('.classes.append'):
-                    sink(n.args[0], cn.split('.')[-2] + ' list', n)
-                if cn == 're.escape' and n.args:
-                    sink(n.args[0], 'attribute value pattern', n)
-                if isinstance(n.func, ast.Attribute) and n.func.attr == 'get' and n.args \
-                        and unparse(n.func.value) in ('self.custom', 'self.patterns'):
-                    sink(n.args[0], f'lookup in {unparse(n.func.value)}', n, need_lower=True)
-            if isinstance(n, ast.Assign):
-                for t in n.targets:
-                    if isinstance(t, ast.Subscript) and isinstance(t.value, ast.Name) and t.value.id in (
-                            'custom_selectors',):
-                        sink(t.slice, f'key of {t.value.id}', n, need_lower=True)
-                    if isinstance(t, ast.Subscript) and unparse(t.value) == 'self.custom':
-                        sink(t.slice, 'key of self.custom', n, need_lower=True)
-            # comparisons with letter-bearing constants
-            dyn_const = []
-            if isinstance(n, ast.Compare) and len(n.ops) == 1 and isinstance(
-                    n.ops[0], (ast.Eq, ast.NotEq, ast.In, ast.NotIn)):
-                a, b = n.left, n.comparators[0]
-                for dyn, const in ((a, b), (b, a)):
-                    cv = inv.folder.try_ev('css_parser', const, default=None)
-                    if cv is not None and has_letters(cv):
-                        dyn_const.append((dyn, cv, n))
-            if isinstance(n, ast.Call) and isinstance(n.func, ast.Attribute) and n.func.attr in (
-                    'startswith', 'endswith') and n.args:
-                cv = inv.folder.try_ev('css_parser', n.args[0], default=None)
-                if cv is not None and has_letters(cv):
-                    dyn_const.append((n.func.value, cv, n))
-            for dyn, cv, node in dyn_const:
-                for p in sorted(flow.prov(dyn), key=lambda p: p.source):
-                    shown = cv if isinstance(cv, str) else f'{len(cv)} names'
-                    r4.instance({'function': fq, 'comparison': unparse(node)[:70], 'source': p.source,
-                                 'lowered': p.lowered, 'constant': shown},
-                                key=f'{fq}|{unparse(node)}|{p.source}|{p.lowered}')
-                    r4.obligation(p.lowered)
-                    if not p.lowered:
-                        r4.violation(f'{fq} compare {unparse(node)[:60]}', pmod.where(node),
-                                     f'{fq}: `{unparse(node)[:70]}` compares text from {p.source} with a lettered '
-                                     f'constant without lower-casing it after the last decode (pipeline '
-                                     f'{list(p.steps)}): upper-case or escaped spellings behave differently')
+    decode_pipeline_rule(ctx, r3, r4)
 
     # ---- R5 --------------------------------------------------------------------------------------------
     r5 = report.rule('C09-R5', 'sibling grammars agree', floor=3)
